@@ -46,7 +46,7 @@ func runC10(c *Ctx) {
 			if !IsCall(i, "(net/http.Header).Del") {
 				return false
 			}
-			a := CallOf(i).Args
+			a := PArgs(CallOf(i))
 			k, ok := ConstString(a[1])
 			if !ok || canonicalHeaderKey(k) != "Set-Cookie" {
 				return false
@@ -91,7 +91,7 @@ func runC10(c *Ctx) {
 		// every Set-Cookie added is the session cookie, on the no-session branch
 		n := 0
 		for _, call := range Calls(wh, "(net/http.Header).Add", "(net/http.Header).Set") {
-			a := CallOf(call).Args
+			a := PArgs(CallOf(call))
 			k, ok := ConstString(a[1])
 			if !ok || canonicalHeaderKey(k) != "Set-Cookie" {
 				continue
@@ -101,7 +101,7 @@ func runC10(c *Ctx) {
 			sc := CallResult(a[2], 0, "(*net/http.Cookie).String")
 			okv := false
 			if sc != nil {
-				if al, isA := Roots(sc.Call.Args[0])[0].(*ssa.Alloc); isA && NamedType(al.Type()) == "net/http.Cookie" {
+				if al, isA := Roots(PArgs(&sc.Call)[0])[0].(*ssa.Alloc); isA && NamedType(al.Type()) == "net/http.Cookie" {
 					okv = true
 				}
 			}
@@ -262,7 +262,7 @@ func runC10(c *Ctx) {
 			if v := get("Expires"); v != nil {
 				ok := false
 				if call := CallResult(v, 0, "(time.Time).Add"); call != nil {
-					ok = CallResult(call.Call.Args[0], 0, "time.Now") != nil && PathOf(call.Call.Args[1]) == P(wh, 0)+".c.sessionCookieTimeout"
+					ok = CallResult(PArgs(&call.Call)[0], 0, "time.Now") != nil && PathOf(PArgs(&call.Call)[1]) == P(wh, 0)+".c.sessionCookieTimeout"
 				}
 				c.Check("C10.A", "Expires", p, a.Pos(), ok, "Expires = time.Now().Add(cache.sessionCookieTimeout)", "Expires is "+PathOf(v)+", expected time.Now().Add(<configured lifetime>)")
 			} else {
@@ -278,7 +278,7 @@ func runC10(c *Ctx) {
 				// the field was just assigned a fresh UUID, dominating the literal
 				fresh := false
 				for _, st := range StoresToField([]*ssa.Function{wh}, T, "sessionID") {
-					if call := CallResult(st.Val, 0, "(github.com/google/uuid.UUID).String"); call != nil && CallResult(call.Call.Args[0], 0, "github.com/google/uuid.New", "github.com/google/uuid.NewRandom") != nil {
+					if call := CallResult(st.Val, 0, "(github.com/google/uuid.UUID).String"); call != nil && CallResult(PArgs(&call.Call)[0], 0, "github.com/google/uuid.New", "github.com/google/uuid.NewRandom") != nil {
 						if Dominates(st, a) || st.Block() == a.Block() {
 							fresh = true
 						}
@@ -312,7 +312,7 @@ func runC10(c *Ctx) {
 	}
 	if m := p.Func("agent.main"); m != nil {
 		if nc := c.UniqueCall("C10.N", p, m, false, ModPath+"/agent/sessions.NewCache"); nc != nil {
-			a := CallOf(nc).Args
+			a := PArgs(CallOf(nc))
 			ok := PathOf(a[0]) == "**global:sessionCookieName" && PathOf(a[1]) == "**global:sessionCookieTimeout" && PathOf(a[2]) == "**global:sessionCookieCacheLimit" && PathOf(a[3]) == "**global:disableSSLForTest"
 			c.Check("C10.N", "main:cache-from-flags", p, nc.Pos(), ok, "NewCache receives the four session flags in their roles", "NewCache is not called with (-session-cookie-name, -session-cookie-timeout, -session-cookie-cache-limit, -disable-ssl-for-test) in these roles")
 		}
@@ -323,7 +323,7 @@ func runC10(c *Ctx) {
 	if rs := c.need(p, "C10.R", "agent/sessions.(*sessionHandler).restoreSession"); rs != nil {
 		del := []ssa.Instruction{}
 		for _, call := range Calls(rs, "(net/http.Header).Del") {
-			if k, ok := ConstString(CallOf(call).Args[1]); ok && canonicalHeaderKey(k) == "Cookie" && PathOf(CallOf(call).Args[0]) == P(rs, 1)+".Header" {
+			if k, ok := ConstString(PArgs(CallOf(call))[1]); ok && canonicalHeaderKey(k) == "Cookie" && PathOf(PArgs(CallOf(call))[0]) == P(rs, 1)+".Header" {
 				del = append(del, call)
 			}
 		}
@@ -540,7 +540,7 @@ func setCookieReads(fn *ssa.Function) []setCookieRead {
 	feedsParse := func(read ssa.Value) bool {
 		for _, pc := range parses {
 			hit := false
-			SliceBack(pc.Call.Args[0], func(v ssa.Value) bool {
+			SliceBack(PArgs(&pc.Call)[0], func(v ssa.Value) bool {
 				if v == read {
 					hit = true
 					return false
@@ -574,9 +574,9 @@ func setCookieReads(fn *ssa.Function) []setCookieRead {
 					}
 					out = append(out, setCookieRead{At: i, Header: h})
 				case "(net/http.Header).Values":
-					if k, ok := ConstString(x.Call.Args[1]); ok && canonicalHeaderKey(k) == "Set-Cookie" && feedsParse(x) {
+					if k, ok := ConstString(PArgs(&x.Call)[1]); ok && canonicalHeaderKey(k) == "Set-Cookie" && feedsParse(x) {
 						seen[i] = true
-						out = append(out, setCookieRead{At: i, Header: x.Call.Args[0], Parsed: true})
+						out = append(out, setCookieRead{At: i, Header: PArgs(&x.Call)[0], Parsed: true})
 					}
 				}
 			case *ssa.Lookup:
@@ -608,7 +608,7 @@ func cookiesFromRead(v ssa.Value, read ssa.Instruction) bool {
 			case "net/http.ParseSetCookie":
 				n++
 				hit := false
-				SliceBack(y.Call.Args[0], func(z ssa.Value) bool {
+				SliceBack(PArgs(&y.Call)[0], func(z ssa.Value) bool {
 					if z == rv {
 						hit = true
 						return false
